@@ -203,6 +203,11 @@ func buildScenario(progs []*ruleProgram, side int, v6, ext, l2, peer, short bool
 	fr(hookWanIn, R, "SYN", fSYN)
 	fr(hookRouted, R, "SYNACK", fSYN|fACK)
 	fr(hookRouted, R, "ACK", fACK|fPSH)
+	// the 4-tuple of T used the other way round: the remote opens a connection towards the local port with a pure
+	// SYN (seen by WAN ingress, and by LAN egress when forwarded), the local side answers SYN+ACK on the routed hook
+	fr(hookWanIn, T, "SYN", fSYN)
+	fr(hookLanOut, T, "SYN", fSYN)
+	fr(hookRouted, T, "SYNACK", fSYN|fACK)
 	if side == sideWAN {
 		fr(hookRouted, SP, "SYN", fSYN)
 		fr(hookRouted, SMu, "DGRAM", 0)
